@@ -140,6 +140,9 @@ def type_name(v, st=None):
 
 
 # ---- truthiness ---------------------------------------------------------------
+ALWAYS_TRUE_TAGS = {"register"}  # instances of plain classes without __bool__ / __len__ (IC10Register is a dataclass)
+
+
 def truth(st: State, v):
     """-> python bool or z3 Bool"""
     if isinstance(v, VC):
@@ -166,6 +169,8 @@ def truth(st: State, v):
             return c["__sym__"].nonempty(st)
         return len(c) > 0
     if isinstance(v, (VObj, VFun, VMod, VType, VExc)):
+        return True
+    if isinstance(v, VOpq) and v.tag in ALWAYS_TRUE_TAGS:
         return True
     if isinstance(v, VOpq):
         # opaque objects: truthiness is an uninterpreted predicate of the object
@@ -480,6 +485,17 @@ def eq(eng, st, a, b):
     if (isinstance(a, VOpq) and a.tag.startswith("opt:")) or (isinstance(b, VOpq) and b.tag.startswith("opt:")):
         # an arbitrary value compared with anything: the outcome is unknown (a fresh Boolean)
         return fresh("any_eq", z3.BoolSort())
+    if isinstance(a, VDict) and isinstance(b, VDict) and a.oid != b.oid:
+        da, db = st.store[a.oid], st.store[b.oid]
+        if "__sym__" in da or "__sym__" in db:
+            raise Unsupported("== between symbolic dicts")
+        if set(da) != set(db):
+            return False
+        parts = [eq(eng, st, da[k], db[k]) for k in da]
+        if any(p is False for p in parts):
+            return False
+        parts = [p for p in parts if p is not True]
+        return z3.And(*parts) if parts else True
     if isinstance(a, VRefBase) and isinstance(b, VRefBase):
         if a.oid == b.oid:
             return True
@@ -496,6 +512,8 @@ def eq(eng, st, a, b):
         return False
     if isinstance(a, VC) and a.py is None and isinstance(b, (VObj, VOpq, VFun)) or isinstance(b, VC) and b.py is None and isinstance(a, (VObj, VFun)):
         return False
+    if (isinstance(a, VOpq) and isinstance(b, (VC, VStr, VInt, VFloat, VBool))) or (isinstance(b, VOpq) and isinstance(a, (VC, VStr, VInt, VFloat, VBool))):
+        return False  # an opaque object (a register, an enum member, ...) is not equal to a str / number / None
     raise Unsupported(f"== between {a!r} and {b!r}")
 
 
